@@ -60,7 +60,10 @@ def run(ctx, scale=1):
     # near-misses of the sensitive spellings that are still neutral
     stmts += [(s, "extra") for s in ["select a - b from t", "select a -b from t", "select a- b from t", "select 1-2", "select a from t -- x-y\n",
                                      "select 'a-b', 'x\"y', '[z]', '`q`', '@v' from t", "select a /* [x] \"y\" `z` */ from t", "select 3-a from t",
-                                     "select a$b, _c from t", "select a from t where b = 'it''s' and c<>-1"]]
+                                     "select a$b, _c from t", "select a from t where b = 'it''s' and c<>-1",
+                                     # bare names over the whole identifier alphabet (its edges: À Ö Ø ö ø ÿ Ā ƿ; ǀ is outside)
+                                     "select aĀ, Āb, ƿ, xƿy from tÿ", "select À1, ÖØ, öø from ÿĀ join Ɛ on Ɛ.ƿ = ÿĀ.À1",
+                                     "select a from t where ǀ = 1", "select aǀ from t", "select ñandú, straße, Ǝ from Ɵ where ƛ > 1"]]
     # the whole operator table side by side: a dialect whose operator order / flattening differs shows here
     import precprobe
     stmts += [(s, "operators") for s in precprobe.statements()]
